@@ -182,3 +182,22 @@ package prelude
 //@   trusted
 //@   modifies elems(buf)
 //@   ensures 0 <= result && result <= len(buf)
+
+//@ package bytes
+
+// bytes.Buffer used as a write-then-read-all scratch buffer: its unread text is the
+// specification-only field `content` (reads that consume are not modelled).
+//@ ghost (bytes.Buffer) content string
+
+//@ func (*Buffer).WriteString
+//@   trusted
+//@   modifies gf(b, content, string)
+//@   ensures gf(b, content, string) == old(gf(b, content, string)) + s && result1 == nil
+//@ func (*Buffer).Reset
+//@   trusted
+//@   modifies gf(b, content, string)
+//@   ensures gf(b, content, string) == ""
+//@ func (*Buffer).Bytes
+//@   trusted
+//@   modifies nothing
+//@   ensures str(result) == gf(b, content, string)
